@@ -2700,6 +2700,240 @@ fn run_unpack(case: &Value) -> Value {
     json!({"status": "ok", "before": before, "steps": steps, "archive_len": full.len()})
 }
 
+// ---------------------------------------------------------------------------
+// kind "lock": several concurrent users of ONE store directory and ONE cache
+// directory, each through the real Store::acquire_offline / Store::commit (or drop)
+// and Cache::acquire / drop, with generated start delays and think times.
+
+fn lock_cfg(metadata: &Metadata, dir: &std::path::Path, cache_dir: &std::path::Path) -> Config {
+    use clap::Parser;
+    let crate::cli::FakeCli::Vet(cli) =
+        crate::cli::FakeCli::try_parse_from(["cargo", "vet"]).expect("cli");
+    Config {
+        metacfg: crate::format::MetaConfig(vec![crate::format::MetaConfigInstance {
+            version: Some(1),
+            store: Some(crate::format::StoreInfo {
+                path: Some(dir.to_owned()),
+            }),
+        }]),
+        metadata: metadata.clone(),
+        _rest: crate::PartialConfig {
+            cli,
+            now: super::mock_now(),
+            cache_dir: cache_dir.to_owned(),
+            mock_cache: false,
+        },
+    }
+}
+
+fn marker_ids<'a>(keys: impl Iterator<Item = &'a String>) -> Vec<u64> {
+    keys.filter_map(|k| k.strip_prefix("mk").and_then(|n| n.parse().ok()))
+        .collect()
+}
+
+fn store_markers(s: &Store) -> [Vec<u64>; 3] {
+    [
+        marker_ids(s.config.exemptions.keys()),
+        marker_ids(s.audits.audits.keys()),
+        marker_ids(s.imports.publisher.keys()),
+    ]
+}
+
+fn run_lock(case: &Value) -> Value {
+    use std::sync::atomic::{AtomicUsize, Ordering};
+    use std::time::{Duration, Instant};
+    let metadata = build_metadata(&json!({"packages": [{"name": "wsaaa", "version": "1.0.0", "source": "path", "workspace": true, "deps": []}]}));
+    let tmp = tempfile::tempdir().unwrap();
+    let dir = tmp.path().join("supply-chain");
+    let cache_dir = tmp.path().join("cache");
+    std::fs::create_dir_all(&dir).unwrap();
+    // initial files, with padding so that a write takes a while
+    let pad = case["padding"].as_u64().unwrap_or(0);
+    let mut config = String::from("\n[cargo-vet]\nversion = \"0.10\"\n");
+    let mut audits = String::from("\n[audits]\n");
+    let mut imports = String::from("\n[audits]\n");
+    for i in 0..pad {
+        config.push_str(&format!("\n[[exemptions.pad{i:04}]]\nversion = \"1.0.0\"\ncriteria = \"safe-to-deploy\"\n"));
+    }
+    for i in 0..pad {
+        audits = format!("{audits}\n[[audits.pad{i:04}]]\nwho = \"pad\"\ncriteria = \"safe-to-deploy\"\nversion = \"1.0.0\"\n");
+        imports.push_str(&format!("\n[[publisher.pad{i:04}]]\nversion = \"1.0.0\"\nwhen = \"2022-01-01\"\nuser-id = 1\nuser-login = \"pad\"\n"));
+    }
+    if pad > 0 {
+        audits = audits.replacen("\n[audits]\n", "", 1);
+    }
+    let texts = match Store::mock_acquire(&config, &audits, &imports, mock_today(), false) {
+        Ok(s) => s.mock_commit(),
+        Err(e) => return json!({"status": "harness_error", "error": format!("initial store refused: {e:?}")}),
+    };
+    for (name, text) in &texts {
+        std::fs::write(dir.join(name), text).unwrap();
+    }
+
+    let users = case["users"].as_array().unwrap();
+    let seq = AtomicUsize::new(0);
+    let inside = [AtomicUsize::new(0), AtomicUsize::new(0)];
+    let max_inside = [AtomicUsize::new(0), AtomicUsize::new(0)];
+    let t0 = Instant::now();
+    let results: Vec<Value> = std::thread::scope(|sc| {
+        let handles: Vec<_> = users
+            .iter()
+            .enumerate()
+            .map(|(i, u)| {
+                let (seq, inside, max_inside) = (&seq, &inside, &max_inside);
+                let (metadata, dir, cache_dir) = (&metadata, &dir, &cache_dir);
+                sc.spawn(move || {
+                    let role = u["role"].as_str().unwrap_or("reader").to_owned();
+                    let start = Duration::from_micros(u["start_us"].as_u64().unwrap_or(0));
+                    let think = Duration::from_micros(u["think_us"].as_u64().unwrap_or(0));
+                    let r = catch_unwind(AssertUnwindSafe(|| {
+                        let cfg = lock_cfg(metadata, dir, cache_dir);
+                        std::thread::sleep(start);
+                        let asked = t0.elapsed().as_micros() as u64;
+                        let which = usize::from(role == "cache");
+                        let enter = |got: u64| -> (usize, u64) {
+                            let order = seq.fetch_add(1, Ordering::SeqCst);
+                            let n = inside[which].fetch_add(1, Ordering::SeqCst) + 1;
+                            max_inside[which].fetch_max(n, Ordering::SeqCst);
+                            (order, got)
+                        };
+                        if role == "cache" {
+                            let cache = match crate::storage::Cache::acquire(&cfg) {
+                                Ok(c) => c,
+                                Err(e) => return json!({"user": i, "role": role, "outcome": format!("acquire-error {e:?}")}),
+                            };
+                            let (order, got) = enter(t0.elapsed().as_micros() as u64);
+                            let count = match cache.get_last_fetch() {
+                                Some(crate::format::FetchCommand::Inspect { version, .. }) => version.semver.major,
+                                _ => 0,
+                            };
+                            std::thread::sleep(think);
+                            cache.set_last_fetch(crate::format::FetchCommand::Inspect {
+                                package: "counter".to_owned(),
+                                version: format!("{}.0.0", count + 1).parse().unwrap(),
+                            });
+                            inside[which].fetch_sub(1, Ordering::SeqCst);
+                            drop(cache);
+                            return json!({"user": i, "role": role, "outcome": "ok", "order": order, "asked_us": asked, "got_us": got,
+                                          "released_us": t0.elapsed().as_micros() as u64, "saw_count": count});
+                        }
+                        let mut store = match Store::acquire_offline(&cfg) {
+                            Ok(s) => s,
+                            Err(e) => {
+                                let d = format!("{e:?}");
+                                return json!({"user": i, "role": role, "outcome": format!("load-error {}", error_kind(&d)),
+                                              "error": d.chars().take(300).collect::<String>()});
+                            }
+                        };
+                        let (order, got) = enter(t0.elapsed().as_micros() as u64);
+                        let view = store_markers(&store);
+                        let pad_seen = [
+                            store.config.exemptions.keys().filter(|k| k.starts_with("pad")).count(),
+                            store.audits.audits.keys().filter(|k| k.starts_with("pad")).count(),
+                            store.imports.publisher.keys().filter(|k| k.starts_with("pad")).count(),
+                        ];
+                        std::thread::sleep(think);
+                        let outcome = if role == "writer" {
+                            let name = format!("mk{i}");
+                            store.config.exemptions.entry(name.clone()).or_default().push(ExemptedDependency {
+                                version: "1.0.0".parse().unwrap(),
+                                criteria: vec!["safe-to-deploy".to_owned().into()],
+                                suggest: true,
+                                notes: None,
+                            });
+                            store.audits.audits.entry(name.clone()).or_default().push(AuditEntry {
+                                who: vec!["verif".to_owned().into()],
+                                criteria: vec!["safe-to-deploy".to_owned().into()],
+                                kind: AuditKind::Full { version: "1.0.0".parse().unwrap() },
+                                importable: true,
+                                notes: None,
+                                aggregated_from: vec![],
+                                is_fresh_import: false,
+                            });
+                            store.imports.publisher.entry(name).or_default().push(CratesPublisher {
+                                version: "1.0.0".parse().unwrap(),
+                                when: mock_today(),
+                                user_id: 1,
+                                user_login: "pad".to_owned(),
+                                user_name: None,
+                                is_fresh_import: false,
+                            });
+                            inside[which].fetch_sub(1, Ordering::SeqCst);
+                            match store.commit() {
+                                Ok(()) => "ok".to_owned(),
+                                Err(e) => format!("commit-error {e:?}"),
+                            }
+                        } else {
+                            inside[which].fetch_sub(1, Ordering::SeqCst);
+                            drop(store);
+                            "ok".to_owned()
+                        };
+                        json!({"user": i, "role": role, "outcome": outcome, "order": order, "asked_us": asked, "got_us": got,
+                               "released_us": t0.elapsed().as_micros() as u64, "view": view, "pad_seen": pad_seen})
+                    }));
+                    match r {
+                        Ok(v) => v,
+                        Err(p) => json!({"user": i, "role": role, "outcome": format!("panic {}", panic_message(&p))}),
+                    }
+                })
+            })
+            .collect();
+        handles.into_iter().map(|h| h.join().unwrap()).collect()
+    });
+
+    // final state, read back through the real loader
+    let cfg = lock_cfg(&metadata, &dir, &cache_dir);
+    let (final_markers, final_pad, final_status) = match Store::acquire_offline(&cfg) {
+        Ok(s) => (
+            store_markers(&s).to_vec(),
+            vec![
+                s.config.exemptions.keys().filter(|k| k.starts_with("pad")).count(),
+                s.audits.audits.keys().filter(|k| k.starts_with("pad")).count(),
+                s.imports.publisher.keys().filter(|k| k.starts_with("pad")).count(),
+            ],
+            "ok".to_owned(),
+        ),
+        Err(e) => (vec![], vec![], format!("load-error {e:?}")),
+    };
+    let cache_count = if users.iter().any(|u| u["role"] == "cache") {
+        match crate::storage::Cache::acquire(&cfg) {
+            Ok(c) => match c.get_last_fetch() {
+                Some(crate::format::FetchCommand::Inspect { version, .. }) => Some(version.semver.major),
+                _ => Some(0),
+            },
+            Err(_) => None,
+        }
+    } else {
+        None
+    };
+
+    // observation for the model comparison: store users in lock order
+    let mut store_users: Vec<&Value> = results
+        .iter()
+        .filter(|r| r["role"] != "cache" && r["order"].is_u64())
+        .collect();
+    store_users.sort_by_key(|r| r["order"].as_u64().unwrap());
+    let nums = |v: &Value| -> Vec<String> {
+        let mut l: Vec<u64> = v.as_array().map(|a| a.iter().filter_map(|x| x.as_u64()).collect()).unwrap_or_default();
+        l.sort();
+        l.iter().map(|x| x.to_string()).collect()
+    };
+    let files = |v: &Value| -> Vec<String> { (0..3).map(|f| sp(&format!("f{f}"), nums(&v[f]))).collect() };
+    let obs = sp(
+        "lock",
+        vec![
+            sp("views", store_users.iter().map(|r| sp("v", std::iter::once(r["user"].to_string()).chain(files(&r["view"])).collect())).collect()),
+            sp("final", files(&json!(final_markers))),
+        ],
+    );
+    let roles: Vec<Value> = users.iter().map(|u| json!(u["role"] == "writer")).collect();
+    let order: Vec<Value> = store_users.iter().map(|r| nat(r["user"].as_u64().unwrap() as usize)).collect();
+    json!({"status": "ok", "obs": obs, "users": results,
+           "max_inside_store": max_inside[0].load(Ordering::SeqCst), "max_inside_cache": max_inside[1].load(Ordering::SeqCst),
+           "final": final_markers, "final_pad": final_pad, "final_status": final_status, "cache_count": cache_count, "padding": pad,
+           "model_input": {"roles": roles, "order": order}})
+}
+
 fn panic_message(p: &Box<dyn std::any::Any + Send>) -> String {
     if let Some(s) = p.downcast_ref::<String>() {
         s.clone()
@@ -2724,6 +2958,7 @@ fn run_case(case: &Value) -> Value {
         "validate" => run_validate(case),
         "serde" => run_serde(case),
         "unpack" => run_unpack(case),
+        "lock" => run_lock(case),
         other => json!({"status": "harness_error", "error": format!("unknown kind {other}")}),
     }));
     let mut v = match r {
